@@ -107,6 +107,18 @@ def pool_changes(fs, a, rng):
     return n
 
 
+def pool_name_conflict(c):
+    """Across the disks one name is a file or link and, on another disk, also a directory holding files: the merged view of
+    the pool cannot hold both (a symbolic link and a directory of the same name); nothing is promised for such arrays."""
+    names = {f.sub for f in c.files} | {l["sub"] for l in c.links}
+    for n_ in names:
+        parts = n_.split(b"/")
+        for k_ in range(1, len(parts)):
+            if b"/".join(parts[:k_]) in names:
+                return True
+    return False
+
+
 def judge_pool(a, poolb, c, use_share, share, V, rep, label):
     """The pool dir holds exactly one symlink per recorded file/link name, resolving to a recorded entry of that name;
     foreign regular files kept, no empty dirs. Returns the number of links found."""
@@ -294,6 +306,9 @@ def run_case(case):
                 if f.size == 0:
                     continue
                 e = fs.entries[name2idx[dn]].get(sub)
+                if e is not None and e[0] == "hardlink":
+                    # the tool may record any name of the inode as the file
+                    e = fs.entries[name2idx[dn]].get(e[1])
                 if e is None or e[0] != "file":
                     continue
                 bycontent.setdefault(e[1], set()).add((dn, sub))
@@ -335,7 +350,9 @@ def run_case(case):
 
         # ---------------------------------------------------------------- pool
         rp = a.cmd("pool", variant=variant)
-        if rp.rc != 0:
+        if pool_name_conflict(c):
+            res["counters"]["pool_not_judged_name_conflict_across_disks"] = 1
+        elif rp.rc != 0:
             V.append(("pool-fails", "pool rc=%s %s" % (rp.rc, rp.err[-200:].decode("latin-1")), rep))
         else:
             poolb = os.fsencode(pool)
@@ -349,6 +366,12 @@ def run_case(case):
                 nch = pool_changes(fs, a, rng)
                 r2 = a.cmd("sync", "-E", "-Z", variant=variant)
                 r3 = a.cmd("pool", variant=variant)
+                try:
+                    if r2.rc == 0 and pool_name_conflict(a.load_content()):
+                        res["counters"]["pool_not_judged_name_conflict_across_disks"] = 1
+                        break
+                except Exception:
+                    pass
                 if r2.rc != 0 or r3.rc != 0:
                     V.append(("sync-or-pool-fails-after-changes", "sync rc=%s pool rc=%s %s" % (r2.rc, r3.rc, (r2.err + r3.err)[-300:].decode("latin-1")), rep))
                     break
